@@ -51,9 +51,12 @@ Qed.
 (* zcs                                                                  *)
 (* ------------------------------------------------------------------ *)
 Lemma zcs_In xs g :
-  In g (zcs xs) <-> (S g < length xs)%nat /\ Z.sgn (sample xs g) <> Z.sgn (sample xs (S g)).
+  In g (zcs xs) <-> (S g < length xs)%nat /\
+    ((sample xs g < 0 /\ 0 <= sample xs (S g)) \/ (0 <= sample xs g /\ sample xs (S g) < 0)).
 Proof.
-  unfold zcs, sign_change. rewrite filter_In, in_seq, negb_true_iff, Z.eqb_neq. lia.
+  unfold zcs, sign_change, neg. rewrite filter_In, in_seq, negb_true_iff.
+  destruct (Z.ltb_spec (sample xs g) 0), (Z.ltb_spec (sample xs (S g)) 0); cbn [Bool.eqb]; split; intros [A B];
+    (split; [lia|]); try discriminate; try reflexivity; try lia.
 Qed.
 
 Lemma zcs_sorted xs : StronglySorted lt (zcs xs).
@@ -163,8 +166,7 @@ Proof.
   destruct (Z_lt_ge_dec (sample xs i) 0) as [N|P]; [exfalso|lia].
   destruct (find_upcross xs fg (fg - i) i) as (j & Hj & H1 & H2); [lia|exact N|exact Hf|].
   assert (Ij : In j (zcs xs)).
-  { apply zcs_In. apply zcs_In in Ifg as [Lf _]. split; [lia|].
-    rewrite (Z.sgn_neg (sample xs j)) by lia. destruct (Z.sgn_spec (sample xs (S j))) as [[? ->]|[[? ->]|[? ->]]]; lia. }
+  { apply zcs_In. apply zcs_In in Ifg as [Lf _]. split; [lia|]. left. lia. }
   specialize (Hm j Ij). lia.
 Qed.
 
@@ -179,13 +181,10 @@ Proof.
 Qed.
 
 Lemma pair_after_fall_neg xs rg fg :
-  nozero xs -> In (rg, fg) (pass_pairs xs) -> sample xs (S fg) < 0.
+  In (rg, fg) (pass_pairs xs) -> sample xs (S fg) < 0.
 Proof.
-  intros NZ H. destruct (pair_struct _ _ _ H) as (_ & Ifg & L & _ & Hf & _).
-  apply zcs_In in Ifg as [Lf D].
-  pose proof (NZ fg) as N1. pose proof (NZ (S fg) Lf) as N2.
-  destruct (Z_lt_ge_dec (sample xs (S fg)) 0) as [N|P]; [exact N|exfalso].
-  rewrite !Z.sgn_pos in D by lia. apply D. reflexivity.
+  intros H. destruct (pair_struct _ _ _ H) as (_ & Ifg & L & _ & Hf & _).
+  apply zcs_In in Ifg as [Lf D]. lia.
 Qed.
 
 (* order of the reported pairs *)
@@ -199,13 +198,13 @@ Proof.
 Qed.
 
 Lemma pairs_disjoint xs l1 r1 f1 l2 r2 f2 l3 :
-  nozero xs -> pass_pairs xs = l1 ++ (r1, f1) :: l2 ++ (r2, f2) :: l3 -> (f1 < r2)%nat.
+  pass_pairs xs = l1 ++ (r1, f1) :: l2 ++ (r2, f2) :: l3 -> (f1 < r2)%nat.
 Proof.
-  intros NZ E. pose proof (pairs_order _ _ _ _ _ _ E) as O. cbn [snd] in O.
+  intros E. pose proof (pairs_order _ _ _ _ _ _ E) as O. cbn [snd] in O.
   assert (I1 : In (r1, f1) (pass_pairs xs)). { rewrite E. apply in_or_app. right. left. reflexivity. }
   assert (I2 : In (r2, f2) (pass_pairs xs)).
   { rewrite E. apply in_or_app. right. right. apply in_or_app. right. left. reflexivity. }
-  pose proof (pair_after_fall_neg _ _ _ NZ I1) as N.
+  pose proof (pair_after_fall_neg _ _ _ I1) as N.
   destruct (pair_struct _ _ _ I1) as (_ & _ & _ & _ & Hf1 & _).
   destruct (pair_struct _ _ _ I2) as (_ & _ & _ & Hr2 & _ & _).
   destruct (le_lt_dec r2 f1) as [L|L]; [exfalso|exact L].
@@ -223,14 +222,14 @@ Qed.
    samples inside the window is reported, with exactly these brackets *)
 Lemma run_reported xs r b :
   (r < b)%nat -> (S b < length xs)%nat -> sample xs r < 0 ->
-  (forall i, (r < i <= b)%nat -> 0 < sample xs i) -> sample xs (S b) < 0 ->
+  (forall i, (r < i <= b)%nat -> 0 <= sample xs i) -> sample xs (S b) < 0 ->
   In (r, b) (pass_pairs xs).
 Proof.
   intros L Lb Hr Hrun Hb.
   assert (Ir : In r (zcs xs)).
-  { apply zcs_In. split; [lia|]. rewrite Z.sgn_neg by lia. rewrite Z.sgn_pos; [lia|]. apply Hrun. lia. }
+  { apply zcs_In. split; [lia|]. left. split; [lia|]. apply Hrun. lia. }
   assert (Ib : In b (zcs xs)).
-  { apply zcs_In. split; [lia|]. rewrite (Z.sgn_neg (sample xs (S b))) by lia. rewrite Z.sgn_pos; [lia|]. apply Hrun. lia. }
+  { apply zcs_In. split; [lia|]. right. split; [|lia]. apply Hrun. lia. }
   destruct (in_split _ _ Ir) as (l1 & rest & E).
   pose proof (zcs_sorted xs) as S. rewrite E in S.
   destruct (ssorted_app_inv _ _ _ _ _ S) as (S1 & S2 & S3 & _).
@@ -246,7 +245,7 @@ Proof.
   - exfalso. assert (Hh : In h (zcs xs)). { rewrite E. apply in_or_app. right. right. left. reflexivity. }
     assert (r < h)%nat by (apply S2; left; reflexivity).
     assert (h < b)%nat by (apply T1; left; reflexivity).
-    apply zcs_In in Hh as [_ D]. apply D. rewrite !Z.sgn_pos; [reflexivity| |]; apply Hrun; lia.
+    apply zcs_In in Hh as [_ D]. pose proof (Hrun h). pose proof (Hrun (Datatypes.S h)). lia.
 Qed.
 
 (* ------------------------------------------------------------------ *)
@@ -328,15 +327,14 @@ Qed.
 (* ------------------------------------------------------------------ *)
 (* the reported passes (minutes as rationals)                           *)
 (* ------------------------------------------------------------------ *)
-(* contract of _get_root / scipy.optimize.brentq on a bracketing minute: the result lies in it *)
+(* contract of _get_root on a bracketing minute: the result lies in it (brentq returns a point of
+   its bracket; the fall-back added by fix 4faaafe returns an end point) *)
 Definition root_ok (xs : list Z) (root : nat -> Q) : Prop :=
   forall g, In g (zcs xs) -> (qn g <= root g /\ root g <= qn (S g))%Q.
-(* ... strictly inside: holds when the two bracketing samples are non-zero and root g is a true zero *)
-Definition root_strict (xs : list Z) (root : nat -> Q) : Prop :=
-  forall g, In g (zcs xs) -> (qn g < root g /\ root g < qn (S g))%Q.
-
-Lemma root_strict_ok xs root : root_strict xs root -> root_ok xs root.
-Proof. intros H g Hg. destruct (H g Hg). split; apply Qlt_le_weak; assumption. Qed.
+(* when a single non-negative sample lies between two negative ones, the two roots differ
+   (true for real crossings of an interval of positive length) *)
+Definition root_sep (xs : list Z) (root : nat -> Q) : Prop :=
+  forall g, In g (zcs xs) -> In (S g) (zcs xs) -> (root g < root (S g))%Q.
 
 Lemma qn_le a b : (a <= b)%nat -> (qn a <= qn b)%Q.
 Proof. intros H. unfold qn. rewrite <- Zle_Qle. lia. Qed.
@@ -347,12 +345,31 @@ Proof. unfold qn. rewrite <- Zle_Qle. lia. Qed.
 Lemma qn_lt_inv a b : (qn a < qn b)%Q -> (a < b)%nat.
 Proof. unfold qn. rewrite <- Zlt_Qlt. lia. Qed.
 
+Lemma Qltb_lt x y : Qltb x y = true <-> (x < y)%Q.
+Proof.
+  unfold Qltb. rewrite negb_true_iff. split.
+  - intros H. apply Qnot_le_lt. intros L. apply Qle_bool_iff in L. congruence.
+  - intros H. destruct (Qle_bool y x) eqn:E; [|reflexivity]. apply Qle_bool_iff in E.
+    exfalso. apply (Qlt_not_le _ _ H E).
+Qed.
+
+Lemma root_sep_lt xs root rg fg :
+  root_ok xs root -> root_sep xs root -> In rg (zcs xs) -> In fg (zcs xs) -> (rg < fg)%nat ->
+  (root rg < root fg)%Q.
+Proof.
+  intros R Sp Ir If L. destruct (Nat.eq_dec fg (S rg)) as [->|N]; [apply Sp; assumption|].
+  destruct (R rg Ir) as [_ A]. destruct (R fg If) as [B _].
+  apply Qle_lt_trans with (qn (S rg)); [exact A|]. apply Qlt_le_trans with (qn fg); [apply qn_lt; lia | exact B].
+Qed.
+
 Lemma passes_In xs root p :
-  In p (passes xs root) <-> exists rg fg, In (rg, fg) (pass_pairs xs) /\ p = mkpass xs root (rg, fg).
+  In p (passes xs root) <->
+  exists rg fg, In (rg, fg) (pass_pairs xs) /\ (root rg < root fg)%Q /\ p = mkpass xs root (rg, fg).
 Proof.
   unfold passes. rewrite in_map_iff. split.
-  - intros ([rg fg] & <- & H). exists rg, fg. auto.
-  - intros (rg & fg & H & ->). exists (rg, fg). auto.
+  - intros ([rg fg] & <- & H). apply filter_In in H as [H G]. apply Qltb_lt in G. exists rg, fg. auto.
+  - intros (rg & fg & H & G & ->). exists (rg, fg). split; [reflexivity|].
+    apply filter_In. split; [exact H|]. apply Qltb_lt. exact G.
 Qed.
 
 Lemma mkpass_rg xs root rg fg : p_rg (mkpass xs root (rg, fg)) = rg. Proof. reflexivity. Qed.
@@ -360,30 +377,42 @@ Lemma mkpass_fg xs root rg fg : p_fg (mkpass xs root (rg, fg)) = fg. Proof. refl
 Lemma mkpass_rise xs root rg fg : p_rise (mkpass xs root (rg, fg)) = root rg. Proof. reflexivity. Qed.
 Lemma mkpass_fall xs root rg fg : p_fall (mkpass xs root (rg, fg)) = root fg. Proof. reflexivity. Qed.
 
-(* each pass: rise guess before fall guess, roots in their minutes, rise <= fall *)
+(* rise < fall for every reported pass: the guard `if not risemins < fallmins: continue` *)
+Lemma pass_rise_lt_fall xs root p : In p (passes xs root) -> (p_rise p < p_fall p)%Q.
+Proof.
+  intros H. apply passes_In in H as (rg & fg & _ & G & ->). rewrite mkpass_rise, mkpass_fall. exact G.
+Qed.
+
+(* each pass: rise guess before fall guess, roots in their minutes *)
 Lemma pass_order xs root p :
   root_ok xs root -> In p (passes xs root) ->
   (p_rg p < p_fg p)%nat /\ In (p_rg p) (zcs xs) /\ In (p_fg p) (zcs xs) /\
   (qn (p_rg p) <= p_rise p /\ p_rise p <= qn (S (p_rg p)))%Q /\
   (qn (p_fg p) <= p_fall p /\ p_fall p <= qn (S (p_fg p)))%Q /\
-  (p_rise p <= p_fall p)%Q.
+  (0 <= p_rise p /\ p_rise p < p_fall p /\ p_fall p <= qn (length xs - 1))%Q.
 Proof.
-  intros R H. apply passes_In in H as (rg & fg & H & ->).
-  rewrite mkpass_rg, mkpass_fg, mkpass_rise, mkpass_fall.
+  intros R H. pose proof (pass_rise_lt_fall _ _ _ H) as G.
+  apply passes_In in H as (rg & fg & H & _ & ->).
+  rewrite mkpass_rg, mkpass_fg, mkpass_rise, mkpass_fall in *.
   destruct (pair_struct _ _ _ H) as (Irg & Ifg & L & _).
   destruct (R rg Irg) as [R1 R2]. destruct (R fg Ifg) as [F1 F2].
   repeat split; auto.
-  apply Qle_trans with (qn (S rg)); [exact R2|]. apply Qle_trans with (qn fg); [apply qn_le; lia | exact F1].
+  - apply Qle_trans with (qn rg); [|exact R1]. unfold qn. change 0%Q with (inject_Z 0). rewrite <- Zle_Qle. lia.
+  - apply Qle_trans with (qn (S fg)); [exact F2|]. apply qn_le. apply zcs_In in Ifg as [Lf _]. lia.
 Qed.
 
-Lemma pass_order_strict xs root p :
-  root_strict xs root -> In p (passes xs root) -> (p_rise p < p_fall p)%Q.
+Lemma filter_split (A : Type) (f : A -> bool) (l : list A) : forall a x b,
+  filter f l = a ++ x :: b ->
+  exists l1 l2, l = l1 ++ x :: l2 /\ filter f l1 = a /\ filter f l2 = b.
 Proof.
-  intros R H. apply passes_In in H as (rg & fg & H & ->).
-  rewrite mkpass_rise, mkpass_fall.
-  destruct (pair_struct _ _ _ H) as (Irg & Ifg & L & _).
-  destruct (R rg Irg) as [R1 R2]. destruct (R fg Ifg) as [F1 F2].
-  apply Qlt_le_trans with (qn (S rg)); [exact R2|]. apply Qle_trans with (qn fg); [apply qn_le; lia | apply Qlt_le_weak, F1].
+  induction l as [|h l IH]; intros a x b E; cbn [filter] in E.
+  - destruct a; discriminate.
+  - destruct (f h) eqn:F.
+    + destruct a as [|a0 a].
+      * cbn [app] in E. injection E as <- E. exists [], l. auto.
+      * cbn [app] in E. injection E as <- E. apply IH in E as (l1 & l2 & -> & <- & <-).
+        exists (h :: l1), l2. cbn [filter app]. rewrite F. auto.
+    + apply IH in E as (l1 & l2 & -> & <- & <-). exists (h :: l1), l2. cbn [filter app]. rewrite F. auto.
 Qed.
 
 Lemma passes_split xs root l1 p1 l2 p2 l3 :
@@ -394,16 +423,18 @@ Proof.
   unfold passes. intros E.
   apply map_eq_app in E as (k1 & r1 & E1 & _ & E). apply map_eq_cons in E as (a1 & r2 & -> & <- & E).
   apply map_eq_app in E as (k2 & r3 & -> & _ & E). apply map_eq_cons in E as (a2 & k3 & -> & <- & _).
-  exists k1, a1, k2, a2, k3. auto.
+  apply filter_split in E1 as (m1 & m2 & E1 & _ & E2).
+  apply filter_split in E2 as (m3 & m4 & -> & _ & _).
+  exists m1, a1, m3, a2, m4. auto.
 Qed.
 
-(* passes are reported in time order and do not overlap (no sample exactly on the horizon) *)
+(* passes are reported in time order and do not overlap *)
 Lemma passes_disjoint xs root l1 p1 l2 p2 l3 :
-  nozero xs -> root_ok xs root -> passes xs root = l1 ++ p1 :: l2 ++ p2 :: l3 ->
+  root_ok xs root -> passes xs root = l1 ++ p1 :: l2 ++ p2 :: l3 ->
   (p_fg p1 < p_rg p2)%nat /\ (p_fall p1 <= p_rise p2)%Q.
 Proof.
-  intros NZ R E. apply passes_split in E as (k1 & [r1 f1] & k2 & [r2 f2] & k3 & E & -> & ->).
-  pose proof (pairs_disjoint _ _ _ _ _ _ _ _ NZ E) as D.
+  intros R E. apply passes_split in E as (k1 & [r1 f1] & k2 & [r2 f2] & k3 & E & -> & ->).
+  pose proof (pairs_disjoint _ _ _ _ _ _ _ _ E) as D.
   rewrite mkpass_rg, mkpass_fg, mkpass_rise, mkpass_fall. split; [exact D|].
   assert (I1 : In (r1, f1) (pass_pairs xs)). { rewrite E. apply in_or_app. right. left. reflexivity. }
   assert (I2 : In (r2, f2) (pass_pairs xs)).
@@ -413,39 +444,23 @@ Proof.
   apply Qle_trans with (qn (S f1)); [exact X1|]. apply Qle_trans with (qn r2); [apply qn_le; lia | exact X2].
 Qed.
 
-Lemma passes_disjoint_strict xs root l1 p1 l2 p2 l3 :
-  nozero xs -> root_strict xs root -> passes xs root = l1 ++ p1 :: l2 ++ p2 :: l3 ->
-  (p_fall p1 < p_rise p2)%Q.
-Proof.
-  intros NZ R E. apply passes_split in E as (k1 & [r1 f1] & k2 & [r2 f2] & k3 & E & -> & ->).
-  pose proof (pairs_disjoint _ _ _ _ _ _ _ _ NZ E) as D.
-  rewrite mkpass_rise, mkpass_fall.
-  assert (I1 : In (r1, f1) (pass_pairs xs)). { rewrite E. apply in_or_app. right. left. reflexivity. }
-  assert (I2 : In (r2, f2) (pass_pairs xs)).
-  { rewrite E. apply in_or_app. right. right. apply in_or_app. right. left. reflexivity. }
-  destruct (pair_struct _ _ _ I1) as (_ & If1 & _). destruct (pair_struct _ _ _ I2) as (Ir2 & _).
-  destruct (R f1 If1) as [_ X1]. destruct (R r2 Ir2) as [X2 _].
-  apply Qlt_le_trans with (qn (S f1)); [exact X1|]. apply Qle_trans with (qn r2); [apply qn_le; lia | apply Qlt_le_weak, X2].
-Qed.
-
 (* soundness on the samples *)
 Lemma pass_samples xs root p :
   In p (passes xs root) ->
   (forall i, (p_rg p < i <= p_fg p)%nat -> 0 <= sample xs i) /\
-  (nozero xs -> forall i, (p_rg p < i <= p_fg p)%nat -> 0 < sample xs i) /\
-  sample xs (p_rg p) < 0 /\ (nozero xs -> sample xs (S (p_fg p)) < 0).
+  sample xs (p_rg p) < 0 /\ sample xs (S (p_fg p)) < 0.
 Proof.
-  intros H. apply passes_In in H as (rg & fg & H & ->). rewrite mkpass_rg, mkpass_fg.
-  split; [apply pair_samples_nonneg; exact H|]. split; [intros NZ; apply pair_samples_pos; assumption|].
-  split; [apply (pair_struct _ _ _ H) | intros NZ; eapply pair_after_fall_neg; eassumption].
+  intros H. apply passes_In in H as (rg & fg & H & _ & ->). rewrite mkpass_rg, mkpass_fg.
+  split; [apply pair_samples_nonneg; exact H|].
+  split; [apply (pair_struct _ _ _ H) | eapply pair_after_fall_neg; eassumption].
 Qed.
 
 Lemma pass_samples_between xs root p :
-  root_ok xs root -> nozero xs -> In p (passes xs root) ->
-  forall i, (p_rise p < qn i /\ qn i < p_fall p)%Q -> 0 < sample xs i.
+  root_ok xs root -> In p (passes xs root) ->
+  forall i, (p_rise p < qn i /\ qn i < p_fall p)%Q -> 0 <= sample xs i.
 Proof.
-  intros R NZ H i [H1 H2]. destruct (pass_order _ _ _ R H) as (_ & _ & _ & [A _] & [_ B] & _).
-  destruct (pass_samples _ _ _ H) as (_ & P & _). apply (P NZ).
+  intros R H i [H1 H2]. destruct (pass_order _ _ _ R H) as (_ & _ & _ & [A _] & [_ B] & _).
+  destruct (pass_samples _ _ _ H) as (P & _). apply P.
   assert (qn (p_rg p) < qn i)%Q by (eapply Qle_lt_trans; eassumption).
   assert (qn i < qn (S (p_fg p)))%Q by (eapply Qlt_le_trans; eassumption).
   apply qn_lt_inv in H0, H3. lia.
@@ -454,16 +469,30 @@ Qed.
 (* completeness on the samples *)
 Lemma run_pass xs root r b :
   (r < b)%nat -> (S b < length xs)%nat -> sample xs r < 0 ->
-  (forall i, (r < i <= b)%nat -> 0 < sample xs i) -> sample xs (S b) < 0 ->
+  (forall i, (r < i <= b)%nat -> 0 <= sample xs i) -> sample xs (S b) < 0 ->
+  (root r < root b)%Q ->
   exists p, In p (passes xs root) /\ p_rg p = r /\ p_fg p = b /\
     p_rise p = root r /\ p_fall p = root b /\
     (forall q, In q (passes xs root) -> p_fg q = b -> q = p).
 Proof.
-  intros L Lb Hr Hrun Hb. pose proof (run_reported xs r b L Lb Hr Hrun Hb) as I.
+  intros L Lb Hr Hrun Hb G. pose proof (run_reported xs r b L Lb Hr Hrun Hb) as I.
   exists (mkpass xs root (r, b)). split; [apply passes_In; exists r, b; auto|].
   repeat split; auto.
-  intros q Hq E. apply passes_In in Hq as (rg & fg & Hq & ->). rewrite mkpass_fg in E. subst fg.
+  intros q Hq E. apply passes_In in Hq as (rg & fg & Hq & _ & ->). rewrite mkpass_fg in E. subst fg.
   f_equal. apply (pairs_fg_unique xs); auto.
+Qed.
+
+Lemma run_pass_sep xs root r b :
+  root_ok xs root -> root_sep xs root ->
+  (r < b)%nat -> (S b < length xs)%nat -> sample xs r < 0 ->
+  (forall i, (r < i <= b)%nat -> 0 <= sample xs i) -> sample xs (S b) < 0 ->
+  exists p, In p (passes xs root) /\ p_rg p = r /\ p_fg p = b /\
+    p_rise p = root r /\ p_fall p = root b /\
+    (forall q, In q (passes xs root) -> p_fg q = b -> q = p).
+Proof.
+  intros R Sp L Lb Hr Hrun Hb. apply run_pass; auto.
+  destruct (pair_struct _ _ _ (run_reported xs r b L Lb Hr Hrun Hb)) as (Ir & Ib & _).
+  apply (root_sep_lt xs); assumption.
 Qed.
 
 (* ------------------------------------------------------------------ *)
@@ -489,10 +518,10 @@ Lemma pass_bracket xs root p :
   (forall i, (p_istart p <= i < p_middle p)%nat -> sample xs i < sample xs (p_middle p)) /\
   (p_lo p == Qmax (p_rise p) (inject_Z (Z.of_nat (p_middle p) - 1)))%Q /\
   (p_hi p == Qmin (p_fall p) (inject_Z (Z.of_nat (p_middle p) + 1)))%Q /\
-  (p_rise p <= p_lo p /\ p_lo p <= p_hi p /\ p_hi p <= p_fall p)%Q.
+  (p_rise p <= p_lo p /\ p_lo p < p_hi p /\ p_hi p <= p_fall p)%Q.
 Proof.
-  intros R H. destruct (pass_order _ _ _ R H) as (L & Irg & Ifg & Rr & Rf & RF).
-  apply passes_In in H as (rg & fg & H & ->).
+  intros R H. destruct (pass_order _ _ _ R H) as (L & Irg & Ifg & Rr & Rf & _ & RF & _).
+  apply passes_In in H as (rg & fg & H & _ & ->).
   rewrite mkpass_rg, mkpass_fg, mkpass_rise, mkpass_fall in *.
   pose proof (floor_in rg (root rg) Rr) as IS.
   assert (Lf : (S fg < length xs)%nat) by (apply zcs_In in Ifg; tauto).
@@ -514,21 +543,21 @@ Proof.
   assert (B : (inject_Z (Z.of_nat (istart + m) - 1) < root fg)%Q).
   { eapply Qle_lt_trans; [|apply Qceiling_lt]. rewrite <- Zle_Qle. lia. }
   split; [apply Q.le_max_l|]. split; [|apply Q.le_min_l].
-  apply Q.max_lub; apply Q.min_glb; auto using Qlt_le_weak.
-  rewrite <- Zle_Qle. lia.
+  apply Q.max_lub_lt; apply Q.min_glb_lt; auto.
+  rewrite <- Zlt_Qlt. lia.
 Qed.
 
-(* with no sample on the horizon the best minute sample is an in-pass sample and lies in the bracket *)
-Lemma pass_bracket_nozero xs root p :
-  root_ok xs root -> nozero xs -> In p (passes xs root) ->
-  (p_rg p < p_middle p <= p_fg p)%nat /\ 0 < sample xs (p_middle p) /\
+(* the best minute sample is an in-pass sample and lies in the bracket *)
+Lemma pass_bracket_best xs root p :
+  root_ok xs root -> In p (passes xs root) ->
+  (p_rg p < p_middle p <= p_fg p)%nat /\ 0 <= sample xs (p_middle p) /\
   (forall i, (p_rg p < i <= p_fg p)%nat -> sample xs i <= sample xs (p_middle p)) /\
   (p_lo p <= qn (p_middle p) /\ qn (p_middle p) <= p_hi p)%Q.
 Proof.
-  intros R NZ H. destruct (pass_bracket _ _ _ R H) as (_ & IS & IE & Le & Mi & M2 & _ & Elo & Ehi & _).
+  intros R H. destruct (pass_bracket _ _ _ R H) as (_ & IS & IE & Le & Mi & M2 & _ & Elo & Ehi & _).
   destruct (pass_order _ _ _ R H) as (L & _ & _ & Rr & Rf & _).
-  destruct (pass_samples _ _ _ H) as (_ & P & Nr & Nf). specialize (P NZ). specialize (Nf NZ).
-  assert (Pm : 0 < sample xs (p_middle p)).
+  destruct (pass_samples _ _ _ H) as (P & Nr & Nf).
+  assert (Pm : 0 <= sample xs (p_middle p)).
   { specialize (M2 (S (p_rg p))). specialize (P (S (p_rg p))). lia. }
   assert (Rm : (p_rg p < p_middle p <= p_fg p)%nat).
   { destruct (Nat.eq_dec (p_middle p) (p_rg p)) as [E|E]; [rewrite E in Pm; lia|].
@@ -542,68 +571,77 @@ Proof.
 Qed.
 
 (* ------------------------------------------------------------------ *)
-(* corners where the faithful model contradicts the property            *)
-(* (a minute sample exactly on the horizon: np.sign = 0 gives two indices) *)
+(* corners                                                              *)
 (* ------------------------------------------------------------------ *)
-Definition w_asc : list Z := [-2; 0; 3; 5; -1].
-Definition w_asc_root (g : nat) : Q := match g with 0%nat => 1 | 1%nat => 1 | _ => 7 # 2 end.
-Definition w_desc : list Z := [-1; 2; 0; -3].
-Definition w_desc_root (g : nat) : Q := match g with 0%nat => 1 # 2 | _ => 2 end.
-
-Lemma w_asc_ok : root_ok w_asc w_asc_root.
-Proof.
-  intros g Hg. change (zcs w_asc) with [0%nat; 1%nat; 3%nat] in Hg.
-  destruct Hg as [<-|[<-|[<-|[]]]]; vm_compute; split; discriminate.
-Qed.
-Lemma w_desc_ok : root_ok w_desc w_desc_root.
-Proof.
-  intros g Hg. change (zcs w_desc) with [0%nat; 1%nat; 2%nat] in Hg.
-  destruct Hg as [<-|[<-|[<-|[]]]]; vm_compute; split; discriminate.
-Qed.
-
-(* ascending through an exact zero: a zero-length pass (rise = fall, bracket lo = hi) is reported,
-   followed by the real pass with the same rise *)
-Lemma zero_sample_empty_pass :
-  exists xs root, root_ok xs root /\
-    exists p1 p2, passes xs root = [p1; p2] /\ (p_rise p1 == p_fall p1)%Q /\ (p_lo p1 == p_hi p1)%Q /\
-                  (p_rise p2 == p_rise p1)%Q /\ (p_rise p2 < p_fall p2)%Q.
-Proof.
-  exists w_asc, w_asc_root. split; [exact w_asc_ok|].
-  eexists; eexists. split; [vm_compute; reflexivity|]. vm_compute. repeat split; discriminate.
-Qed.
-
-(* descending through an exact zero: the same pass is reported twice (two consecutive falls,
-   risetime not reset), so reported passes overlap *)
-Lemma zero_sample_duplicate_pass :
-  exists xs root, root_ok xs root /\
-    exists p1 p2, passes xs root = [p1; p2] /\ (p_rise p2 < p_fall p1)%Q /\
-                  (p_rise p1 == p_rise p2)%Q /\ (p_fall p1 == p_fall p2)%Q /\ p_fg p1 <> p_fg p2.
-Proof.
-  exists w_desc, w_desc_root. split; [exact w_desc_ok|].
-  eexists; eexists. split; [vm_compute; reflexivity|]. vm_compute. repeat split; discriminate.
-Qed.
-
 (* a pass already in progress at the window start is not reported (allowed by the property) *)
 Lemma cut_by_start_dropped : forall root, passes [3; 2; -1; -2] root = [].
 Proof. reflexivity. Qed.
 (* ... and one still in progress at the window end is not reported either *)
 Lemma cut_by_end_dropped : forall root, passes [-3; -2; 1; 2] root = [].
 Proof. reflexivity. Qed.
+(* a sample exactly on the horizon counts as above: one pass, once *)
+Lemma zero_sample_now :
+  map (fun p => (p_rg p, p_fg p)) (passes [-2; 0; 3; 5; -1] (fun g => (inject_Z (Z.of_nat g) + (1 # 2))%Q)) = [(0, 3)]%nat /\
+  map (fun p => (p_rg p, p_fg p)) (passes [-1; 2; 0; -3] (fun g => (inject_Z (Z.of_nat g) + (1 # 2))%Q)) = [(0, 2)]%nat /\
+  passes [-1; 0; -1] (fun _ => 1%Q) = [].
+Proof. vm_compute. auto. Qed.
 
-(* non-trivial inhabitant of the hypotheses: two passes, the first cut by the window start *)
-Definition ex_xs : list Z := [2; -1; -3; 1; 4; 6; 5; -2; -4; 3; 7; -1; -5].
-Definition ex_root (g : nat) : Q := inject_Z (Z.of_nat g) + (1 # 3).
-Lemma ex_nozero : nozero ex_xs.
+(* BEFORE fixes b1a947a / f25c902 (three-valued np.sign, no rise < fall guard): why they were needed.
+   Both were replayed on the implementation of that time (NOAA-18, horizon := elevation of a sample). *)
+Definition w_asc : list Z := [-2; 0; 3; 5; -1].
+Definition w_asc_root (g : nat) : Q := match g with 0%nat => 1 | 1%nat => 1 | _ => 7 # 2 end.
+Definition w_desc : list Z := [-1; 2; 0; -3].
+Definition w_desc_root (g : nat) : Q := match g with 0%nat => 1 # 2 | _ => 2 end.
+Definition root_ok3 (xs : list Z) (root : nat -> Q) : Prop :=
+  forall g, In g (zcs3 xs) -> (qn g <= root g /\ root g <= qn (S g))%Q.
+
+Lemma w_asc_ok : root_ok3 w_asc w_asc_root.
 Proof.
-  intros i Hi. cbn in Hi. do 13 (destruct i as [|i]; [vm_compute; discriminate|]). lia.
+  intros g Hg. change (zcs3 w_asc) with [0%nat; 1%nat; 3%nat] in Hg.
+  destruct Hg as [<-|[<-|[<-|[]]]]; vm_compute; split; discriminate.
 Qed.
-Lemma ex_root_strict : root_strict ex_xs ex_root.
+Lemma w_desc_ok : root_ok3 w_desc w_desc_root.
 Proof.
-  intros g Hg. change (zcs ex_xs) with [0%nat; 2%nat; 6%nat; 8%nat; 10%nat] in Hg.
-  destruct Hg as [<-|[<-|[<-|[<-|[<-|[]]]]]]; vm_compute; split; reflexivity.
+  intros g Hg. change (zcs3 w_desc) with [0%nat; 1%nat; 2%nat] in Hg.
+  destruct Hg as [<-|[<-|[<-|[]]]]; vm_compute; split; discriminate.
+Qed.
+
+(* ascending through an exact zero: a zero-length pass (rise = fall, bracket lo = hi) was reported,
+   followed by the real pass with the same rise *)
+Lemma zero_sample_empty_pass_before_fix :
+  exists xs root, root_ok3 xs root /\
+    exists p1 p2, passes_before_fix xs root = [p1; p2] /\ (p_rise p1 == p_fall p1)%Q /\ (p_lo p1 == p_hi p1)%Q /\
+                  (p_rise p2 == p_rise p1)%Q /\ (p_rise p2 < p_fall p2)%Q.
+Proof.
+  exists w_asc, w_asc_root. split; [exact w_asc_ok|].
+  eexists; eexists. split; [vm_compute; reflexivity|]. vm_compute. repeat split; discriminate.
+Qed.
+
+(* descending through an exact zero: the same pass was reported twice (two consecutive falls,
+   risetime not reset), so reported passes overlapped *)
+Lemma zero_sample_duplicate_pass_before_fix :
+  exists xs root, root_ok3 xs root /\
+    exists p1 p2, passes_before_fix xs root = [p1; p2] /\ (p_rise p2 < p_fall p1)%Q /\
+                  (p_rise p1 == p_rise p2)%Q /\ (p_fall p1 == p_fall p2)%Q /\ p_fg p1 <> p_fg p2.
+Proof.
+  exists w_desc, w_desc_root. split; [exact w_desc_ok|].
+  eexists; eexists. split; [vm_compute; reflexivity|]. vm_compute. repeat split; discriminate.
+Qed.
+
+(* non-trivial inhabitant of the hypotheses: a pass cut by the window start (dropped), two full
+   passes, the second a single sample exactly on the horizon *)
+Definition ex_xs : list Z := [2; -1; -3; 1; 4; 6; 5; -2; -4; 0; -1; -5].
+Definition ex_root (g : nat) : Q := inject_Z (Z.of_nat g) + (1 # 3).
+Lemma ex_root_ok : root_ok ex_xs ex_root /\ root_sep ex_xs ex_root.
+Proof.
+  split.
+  - intros g Hg. change (zcs ex_xs) with [0%nat; 2%nat; 6%nat; 8%nat; 9%nat] in Hg.
+    destruct Hg as [<-|[<-|[<-|[<-|[<-|[]]]]]]; vm_compute; split; discriminate.
+  - intros g Hg Hs. change (zcs ex_xs) with [0%nat; 2%nat; 6%nat; 8%nat; 9%nat] in Hg, Hs.
+    destruct Hg as [<-|[<-|[<-|[<-|[<-|[]]]]]]; vm_compute; reflexivity.
 Qed.
 Lemma ex_passes :
-  map (fun p => (p_rg p, p_fg p, p_middle p)) (passes ex_xs ex_root) = [(2, 6, 5); (8, 10, 10)]%nat.
+  map (fun p => (p_rg p, p_fg p, p_middle p)) (passes ex_xs ex_root) = [(2, 6, 5); (8, 9, 9)]%nat.
 Proof. vm_compute. reflexivity. Qed.
 
 (* ------------------------------------------------------------------ *)
@@ -616,54 +654,51 @@ Section ContinuousLift.
   Variable el : R -> R.               (* elevation minus horizon at `t` minutes after utc_time *)
   Variable xs : list Z.               (* the minute samples *)
   Variable root : nat -> Q.
-  (* the samples have the signs of el at the integer minutes *)
+  (* the samples are negative exactly where el is negative at the integer minutes *)
   Hypothesis link : forall i, (i < length xs)%nat ->
-    ((0 < sample xs i)%Z <-> 0 < el (IZR (Z.of_nat i))) /\ ((sample xs i < 0)%Z <-> el (IZR (Z.of_nat i)) < 0).
-  Variables t1 t2 : R.                (* an above-horizon interval (t1, t2) *)
+    ((sample xs i < 0)%Z <-> el (IZR (Z.of_nat i)) < 0).
+  Hypothesis RO : root_ok xs root.
+  Hypothesis RS : root_sep xs root.
+  Variables t1 t2 : R.                (* an interval [t1, t2] on which the satellite is not below the horizon *)
   Hypothesis after_start : 0 < t1.
   Hypothesis longer_than_a_minute : t1 + 1 < t2.
-  Hypothesis before_end : t2 <= IZR (Z.of_nat (length xs)) - 1.   (* last sample is minute len-1 *)
-  Hypothesis above : forall t, t1 < t < t2 -> 0 < el t.
+  Hypothesis before_end : t2 < IZR (Z.of_nat (length xs)) - 1.   (* the last sample is minute len-1 *)
+  Hypothesis above : forall t, t1 <= t <= t2 -> 0 <= el t.
   (* the satellite is below the horizon during the minute before t1 and the minute after t2 *)
   Hypothesis below_before : forall t, t1 - 1 <= t < t1 -> el t < 0.
   Hypothesis below_after : forall t, t2 < t <= t2 + 1 -> el t < 0.
-  (* the crossings do not fall exactly on a sample instant *)
-  Hypothesis t1_off_grid : forall k : Z, IZR k <> t1.
-  Hypothesis t2_off_grid : forall k : Z, IZR k <> t2.
-
-  Lemma floor_off_grid t : (forall k : Z, IZR k <> t) -> IZR (up t - 1) < t < IZR (up t - 1) + 1.
-  Proof.
-    intros H. destruct (archimed t) as [A B]. rewrite minus_IZR.
-    assert (IZR (up t) - 1 <> t) by (rewrite <- minus_IZR; apply H). lra.
-  Qed.
 
   Lemma interval_reported :
     exists p, In p (passes xs root) /\
-      IZR (Z.of_nat (p_rg p)) < t1 < IZR (Z.of_nat (p_rg p)) + 1 /\
-      IZR (Z.of_nat (p_fg p)) < t2 < IZR (Z.of_nat (p_fg p)) + 1 /\
+      IZR (Z.of_nat (p_rg p)) < t1 <= IZR (Z.of_nat (p_rg p)) + 1 /\
+      IZR (Z.of_nat (p_fg p)) <= t2 < IZR (Z.of_nat (p_fg p)) + 1 /\
       p_rise p = root (p_rg p) /\ p_fall p = root (p_fg p) /\
       (forall q, In q (passes xs root) -> p_fg q = p_fg p -> q = p).
   Proof.
-    pose proof (floor_off_grid t1 t1_off_grid) as F1. pose proof (floor_off_grid t2 t2_off_grid) as F2.
-    set (rz := (up t1 - 1)%Z) in *. set (bz := (up t2 - 1)%Z) in *.
+    destruct (archimed (- t1)) as [A1 A2]. destruct (archimed t2) as [B1 B2].
+    set (rz := (- up (- t1))%Z). set (bz := (up t2 - 1)%Z).
+    assert (Er' : IZR rz = - IZR (up (- t1))) by (unfold rz; rewrite opp_IZR; reflexivity).
+    assert (Eb' : IZR bz = IZR (up t2) - 1) by (unfold bz; rewrite minus_IZR; reflexivity).
+    assert (F1 : IZR rz < t1 <= IZR rz + 1) by lra.
+    assert (F2 : IZR bz <= t2 < IZR bz + 1) by lra.
     assert (Rz : (0 <= rz)%Z).
     { assert (IZR (-1) < IZR rz) by (simpl; lra). apply lt_IZR in H. lia. }
     assert (RB : (rz < bz)%Z). { apply lt_IZR. lra. }
     assert (BN : (bz + 1 < Z.of_nat (length xs))%Z).
-    { apply lt_IZR. rewrite plus_IZR. assert (IZR bz < IZR (Z.of_nat (length xs)) - 1) by lra.
-      assert (bz < Z.of_nat (length xs) - 1)%Z by (apply lt_IZR; rewrite minus_IZR; exact H).
-      assert (IZR (bz + 1) <= IZR (Z.of_nat (length xs) - 1)) by (apply IZR_le; lia).
-      rewrite plus_IZR, minus_IZR in H1. simpl in *. lra. }
+    { assert (H : IZR bz < IZR (Z.of_nat (length xs) - 1)) by (rewrite minus_IZR; simpl; lra).
+      apply lt_IZR in H. lia. }
     assert (Er : Z.of_nat (Z.to_nat rz) = rz) by (apply Z2Nat.id; lia).
     assert (Eb : Z.of_nat (Z.to_nat bz) = bz) by (apply Z2Nat.id; lia).
-    destruct (run_pass xs root (Z.to_nat rz) (Z.to_nat bz)) as (p & Ip & E1 & E2 & E3 & E4 & U).
+    destruct (run_pass_sep xs root (Z.to_nat rz) (Z.to_nat bz) RO RS) as (p & Ip & E1 & E2 & E3 & E4 & U).
     - lia.
     - lia.
     - apply (link (Z.to_nat rz)); [lia|]. rewrite Er. apply below_before. lra.
-    - intros i Hi. apply (link i); [lia|]. apply above.
+    - intros i Hi. destruct (Z_lt_ge_dec (sample xs i) 0) as [N|P]; [exfalso|lia].
+      apply (link i) in N; [|lia].
       assert (IZR (rz + 1) <= IZR (Z.of_nat i)) by (apply IZR_le; lia).
       assert (IZR (Z.of_nat i) <= IZR bz) by (apply IZR_le; lia).
-      rewrite plus_IZR in H. simpl in H. lra.
+      rewrite plus_IZR in H. simpl in H.
+      assert (0 <= el (IZR (Z.of_nat i))) by (apply above; lra). lra.
     - apply (link (S (Z.to_nat bz))); [lia|].
       replace (Z.of_nat (S (Z.to_nat bz))) with (bz + 1)%Z by lia. rewrite plus_IZR. simpl.
       apply below_after. lra.
@@ -676,7 +711,6 @@ Section UnimodalCulmination.
   Variable el : R -> R.
   Variable xs : list Z.
   Variable root : nat -> Q.
-  Hypothesis NZ : nozero xs.
   Hypothesis RO : root_ok xs root.
   (* the samples are ordered like el at the integer minutes *)
   Hypothesis link_le : forall i j, (i < length xs)%nat -> (j < length xs)%nat ->
@@ -692,7 +726,7 @@ Section UnimodalCulmination.
   Lemma culmination_in_bracket :
     IZR (Z.of_nat (p_middle p)) - 1 <= tstar <= IZR (Z.of_nat (p_middle p)) + 1.
   Proof.
-    destruct (pass_bracket_nozero _ _ _ RO NZ Ip) as (Rm & _ & Mx & _).
+    destruct (pass_bracket_best _ _ _ RO Ip) as (Rm & _ & Mx & _).
     destruct (pass_order _ _ _ RO Ip) as (_ & _ & Ifg & _). apply zcs_In in Ifg as [Lf _].
     set (m := p_middle p) in *. set (rg := p_rg p) in *. set (fg := p_fg p) in *.
     split.
